@@ -6,7 +6,7 @@ import os
 import sys
 
 sys.path.insert(0, os.path.dirname(os.path.abspath(__file__)))
-from py2coq import SymExec, Opaque, TranslationError, load_function, innermost_for, definition, is_vec, F  # noqa
+from py2coq import SymExec, Opaque, TranslationError, load_function, innermost_for, definition, is_vec, is_cond, F, module_resolver, hoisted_prelude, find_nodes  # noqa
 
 
 def sampler_handlers(prefix, drift_name, drift_extra_args):
@@ -86,6 +86,17 @@ def body_without(stmts, skip_targets):
     return out
 
 
+def split_accept(where, accept):
+    """acceptance mask  u < ratio  ->  (ratio, the exponential inside it)"""
+    if not (is_cond(accept) and accept[0] == "lt" and accept[1] == ("s", "u")):
+        raise TranslationError("%s: the acceptance mask is not `ratio > uniform random number`" % where)
+    ratio = accept[2]
+    exps = find_nodes(ratio, "exp")
+    if len(exps) != 1:
+        raise TranslationError("%s: the acceptance ratio contains %d exponentials, expected the one of the proposal densities" % (where, len(exps)))
+    return ratio, exps[0]
+
+
 ORDER = ["tstep", "tau", "acyrus", "cutoff", "u", "val_new", "val_cur", "x", "gauss", "D_cur", "D_new", "g"]
 
 
@@ -98,20 +109,27 @@ def gen(repo):
         out.append(txt)
         dag[name] = {"expr": e, "args": names}
 
-    # ---- C01: mc.vmc_worker
-    fn = load_function(os.path.join(repo, "pyqmc/method/mc.py"), "vmc_worker")
+    # ---- C01: mc.vmc_worker. The quantities are identified by their ROLE, not by the names of local variables: the acceptance mask is what is
+    # handed to configs.move, the acceptance ratio is what the uniform number is compared with, t_prob is the exponential inside it.
+    path_mc = os.path.join(repo, "pyqmc/method/mc.py")
+    fn = load_function(path_mc, "vmc_worker")
     body = body_without(innermost_for(fn, "e"), {"acc"})
-    se = SymExec(sampler_handlers("vmc", "limdrift", []))
-    env = se.run(body, {"tstep": ("s", "tstep"), "e": Opaque("e"), "nconf": Opaque("nconf"), "configs": Opaque("configs")})
-    for k in ("newcoorde", "forward", "backward", "t_prob", "ratio", "accept"):
-        if k not in env:
-            raise TranslationError("vmc_worker: variable %s not found" % k)
-        emit("vmc_" + k, env[k])
-    emit("vmc_proposal_scale", se.notes["proposal_scale"])
-    emit("vmc_second_gradient_position", se.notes["second_gradient_position"])
+    se = SymExec(sampler_handlers("vmc", "limdrift", []), resolver=module_resolver(path_mc))
+    env0 = {"tstep": ("s", "tstep"), "e": Opaque("e"), "nconf": Opaque("nconf"), "configs": Opaque("configs"), "wf": Opaque("wf")}
+    hoisted_prelude(se, fn, "e", env0)
+    env = se.run(body, env0)
     eff = {e[0]: e for e in se.effects}
     if set(eff) != {"move", "update"} or len(se.effects) != 2:
         raise TranslationError("vmc_worker: expected exactly one configs.move and one wf.updateinternals per electron, saw %s" % [e[0] for e in se.effects])
+    accept = eff["move"][2]
+    ratio, t_prob = split_accept("vmc_worker", accept)
+    emit("vmc_newcoorde", eff["move"][1])
+    emit("vmc_lnT_arg", t_prob[1])
+    emit("vmc_t_prob", t_prob)
+    emit("vmc_ratio", ratio)
+    emit("vmc_accept", accept)
+    emit("vmc_proposal_scale", se.notes["proposal_scale"])
+    emit("vmc_second_gradient_position", se.notes["second_gradient_position"])
     emit("vmc_moved_to", eff["move"][1])
     emit("vmc_move_mask", eff["move"][2])
     emit("vmc_update_position", eff["update"][1])
@@ -141,21 +159,27 @@ def gen(repo):
     emit("dmc_limdrift", env["__return__"])
     emit("dmc_limdrift_default_acyrus", se.ev(defaults["acyrus"], {}))
 
-    fn = load_function(os.path.join(repo, "pyqmc/method/dmc.py"), "propose_drift_diffusion")
+    path_dmc = os.path.join(repo, "pyqmc/method/dmc.py")
+    fn = load_function(path_dmc, "propose_drift_diffusion")
     for real_wf in (True, False):
         h = sampler_handlers("dd", "limdrift", [])
         h["if:wf.dtype == float"] = (lambda rw: (lambda se_, a, k, e: rw))(real_wf)
-        se = SymExec(h)
+        se = SymExec(h, resolver=module_resolver(path_dmc))
         env = se.run(fn.body, {"tstep": ("s", "tstep"), "e": Opaque("e"), "configs": Opaque("configs"), "wf": Opaque("wf")})
         sfx = "_real" if real_wf else "_complex"
-        for k in ("eposnew", "forward", "backward", "t_prob", "ratio", "accept", "r2"):
-            if k not in env:
-                raise TranslationError("propose_drift_diffusion: variable %s not found" % k)
-            emit("dd_" + k + sfx, env[k])
-        emit("dd_proposal_scale" + sfx, se.notes["proposal_scale"])
-        ret = env["__return__"]
-        if not (isinstance(ret, tuple) and len(ret) == 4):
+        ret = env.get("__return__")
+        if not (isinstance(ret, tuple) and len(ret) == 4 and not (ret and isinstance(ret[0], str))):
             raise TranslationError("propose_drift_diffusion: unexpected return value")
+        # roles: (proposed position, acceptance mask, squared displacement, saved values)
+        ratio, t_prob = split_accept("propose_drift_diffusion", ret[1])
+        emit("dd_eposnew" + sfx, ret[0])
+        emit("dd_lnT_arg" + sfx, t_prob[1])
+        emit("dd_t_prob" + sfx, t_prob)
+        emit("dd_ratio" + sfx, ratio)
+        emit("dd_accept" + sfx, ret[1])
+        emit("dd_r2" + sfx, ret[2])
+        emit("dd_proposal_scale" + sfx, se.notes["proposal_scale"])
+        emit("dd_second_gradient_position" + sfx, se.notes["second_gradient_position"])
         emit("dd_returned_position" + sfx, ret[0])
         emit("dd_returned_accept" + sfx, ret[1])
         emit("dd_returned_r2" + sfx, ret[2])
@@ -173,18 +197,42 @@ def gen(repo):
     emit("dmc_compute_S", env["__return__"])
 
     fn = load_function(os.path.join(repo, "pyqmc/method/dmc.py"), "dmc_propagate")
-    wanted = {}
+    # the factor multiplying the weights: the right-hand side of the (single) `weights *= ...` statement, with the simple assignments that precede it
+    # in the same block (tdamp, wmult, ...) executed first; Snew/Sold are the results of the two compute_S calls in order of appearance
+    block, upd = None, None
     for node in ast.walk(fn):
-        if isinstance(node, ast.Assign) and len(node.targets) == 1 and isinstance(node.targets[0], ast.Name) and node.targets[0].id in ("tdamp", "wmult"):
-            wanted[node.targets[0].id] = node
-    if set(wanted) != {"tdamp", "wmult"}:
-        raise TranslationError("dmc_propagate: tdamp / wmult assignments not found")
-    se = SymExec({})
-    env = {k: ("s", k) for k in ("r2_accepted", "r2_proposed", "Snew", "Sold", "tstep")}
-    se.stmt(wanted["tdamp"], env)
-    se.stmt(wanted["wmult"], env)
-    emit("dmc_tdamp", env["tdamp"])
-    emit("dmc_wmult", env["wmult"])
+        for fld in ("body", "orelse"):
+            stmts = getattr(node, fld, None)
+            if not isinstance(stmts, list):
+                continue
+            for k, st in enumerate(stmts):
+                if isinstance(st, ast.AugAssign) and isinstance(st.op, ast.Mult) and isinstance(st.target, ast.Name) and st.target.id == "weights":
+                    if upd is not None:
+                        raise TranslationError("dmc_propagate: more than one `weights *= ...`")
+                    block, upd = stmts[:k], st
+    if upd is None:
+        raise TranslationError("dmc_propagate: no `weights *= ...` statement")
+    ncall = [0]
+
+    def h_S(se_, a, k, e):
+        ncall[0] += 1
+        return ("s", "Snew" if ncall[0] == 1 else "Sold" if ncall[0] == 2 else "S%d" % ncall[0])
+    se = SymExec({"compute_S": h_S})
+    env = {k: ("s", k) for k in ("r2_accepted", "r2_proposed", "tstep")}
+    for st in block:
+        if isinstance(st, ast.Assign) and len(st.targets) == 1 and isinstance(st.targets[0], ast.Name):
+            try:
+                trial = dict(env)
+                se.stmt(st, trial)
+                env = trial
+            except (TranslationError, KeyError, AttributeError, TypeError):
+                pass
+    wm = se.ev(upd.value, env)
+    if ncall[0] != 2:
+        raise TranslationError("dmc_propagate: %d compute_S calls before the weight update, expected 2" % ncall[0])
+    if "tdamp" in env and isinstance(env["tdamp"], tuple):
+        emit("dmc_tdamp", env["tdamp"])
+    emit("dmc_wmult", wm)
     # which arguments compute_S is called with (new and old)
     calls = [n for n in ast.walk(fn) if isinstance(n, ast.Call) and isinstance(n.func, ast.Name) and n.func.id == "compute_S"]
     dag["dmc_compute_S_calls"] = {"expr": ("c", F(0)), "args": [], "note": sorted(ast.unparse(c) for c in calls)}
